@@ -234,6 +234,26 @@ pub fn check_periodic(p: &Pool, pattern: &[(usize, usize)], times: usize, rep: &
     judge_recs(&owned.iter().collect::<Vec<_>>(), &wit, rep)
 }
 
+/// A short history whose records are `gaps[i]` seconds apart (gaps[0] is the offset of the first record): silences
+/// of every order of magnitude between the records of one aircraft and between aircraft.
+pub fn check_gaps(p: &Pool, hist: &[(usize, usize)], gaps: &[f64], rep: &Report) -> usize {
+    let depth = p.recs[0][0].len();
+    let mut owned: Vec<Rec> = Vec::with_capacity(hist.len());
+    let mut ts = 1000.25;
+    for (i, (a, k)) in hist.iter().enumerate() {
+        let Some(r) = p.recs[*a][*k][i % depth].as_ref() else {
+            rep.violation("harness:record", "a reference record is not accepted by the decoder".into(), json!({}));
+            return 0;
+        };
+        ts += gaps[i];
+        owned.push(Rec { msg: r.msg.clone(), ts, shown: r.shown.clone(), leaves: r.leaves.clone() });
+    }
+    let wit = json!({"gaps": gaps, "kinds": if p.kinds.len() == kinds().len() { "all" } else { "core" }, "history": hist.iter().map(|(a, k)| json!([format!("{:06x}", p.addrs[*a]), p.kinds[*k]])).collect::<Vec<_>>()});
+    judge_recs(&owned.iter().collect::<Vec<_>>(), &wit, rep)
+}
+
+pub const GAPS: [f64; 12] = [0.0, 0.5, 3.0, 60.0, 600.0, 3599.5, 3600.0, 3601.0, 7200.0, 86400.0, 1.0e6, 1.0e9];
+
 /// n distinct aircraft each seen once, then each seen again in the same order, then the first one a third time
 pub fn fleet_history(n: usize, kind: &str) -> Vec<Rec> {
     let mut owned: Vec<Rec> = Vec::new();
@@ -483,6 +503,49 @@ pub fn run(ctx: &Ctx, rep: &Report) {
         nontriv += c;
         rep.part("periodic long histories (patterns of 1-3 records repeated up to 300 times)", c, json!({"patterns": pats.len()}));
     }
+    // silences: histories of two and three records over two aircraft and the core kinds, with every pair of gaps from
+    // 0 s to 30 years between consecutive records (expiry rules, "new flight" heuristics, counters keyed by time)
+    {
+        let per = pool(core_kinds(), 3, false);
+        let nk = per.kinds.len();
+        let mut hists: Vec<Vec<(usize, usize)>> = Vec::new();
+        for k0 in 0..nk {
+            for a1 in 0..2 {
+                for k1 in 0..nk {
+                    hists.push(vec![(0, k0), (a1, k1)]);
+                    for a2 in 0..2 {
+                        for k2 in 0..nk {
+                            if ctx.thorough() || (k0 + 2 * k1 + 3 * k2) % 4 == 0 {
+                                hists.push(vec![(0, k0), (a1, k1), (a2, k2)]);
+                            }
+                        }
+                    }
+                }
+            }
+        }
+        let cnt = AtomicU64::new(0);
+        par_items(ctx.threads, hists.len(), |i| {
+            let h = &hists[i];
+            for g1 in GAPS {
+                if h.len() == 2 {
+                    check_gaps(&per, h, &[0.0, g1], rep);
+                    cnt.fetch_add(1, Ordering::Relaxed);
+                } else {
+                    for g2 in GAPS {
+                        check_gaps(&per, h, &[0.0, g1, g2], rep);
+                        cnt.fetch_add(1, Ordering::Relaxed);
+                    }
+                }
+                if stopped() {
+                    return;
+                }
+            }
+        });
+        let c = cnt.load(Ordering::Relaxed);
+        total += c;
+        nontriv += c;
+        rep.part("silences: histories of 2-3 records x every pair of gaps from 0 s to 1e9 s", c, json!({"histories": hists.len(), "gaps_s": GAPS}));
+    }
     // large fleets: N distinct aircraft each seen once (DF11, DF4 or an airborne position), then each seen again in
     // the same order, then the first one a third time (caps on the table size, eviction)
     {
@@ -533,6 +596,23 @@ pub fn replay(w: &Value, rep: &Report) {
     if let Some(n) = w.get("fleet").and_then(|x| x.as_u64()) {
         let owned = fleet_history(n as usize, w["kind"].as_str().unwrap_or("DF11"));
         judge_recs(&owned.iter().collect::<Vec<_>>(), w, rep);
+        rep.trans(1);
+        rep.state(1);
+        rep.sample(w.clone());
+        rep.outcome("replayed", 1);
+        return;
+    }
+    if let Some(g) = w.get("gaps").and_then(|x| x.as_array()) {
+        let ks = if w["kinds"].as_str() == Some("all") { kinds() } else { core_kinds() };
+        let per = pool(ks, 3, false);
+        let gaps: Vec<f64> = g.iter().map(|x| x.as_f64().unwrap_or(0.0)).collect();
+        let hist: Vec<(usize, usize)> = w["history"]
+            .as_array()
+            .map(|a| a.iter().filter_map(|x| Some((per.addrs.iter().position(|y| Some(format!("{y:06x}").as_str()) == x[0].as_str())?, per.kinds.iter().position(|y| Some(*y) == x[1].as_str())?))).collect())
+            .unwrap_or_default();
+        if hist.len() == gaps.len() {
+            check_gaps(&per, &hist, &gaps, rep);
+        }
         rep.trans(1);
         rep.state(1);
         rep.sample(w.clone());
